@@ -96,6 +96,13 @@ func sweepNopanic(p *Prog, pc *PropConfig, tags string, r *checkResult) {
 			switch o.Kind {
 			case "post", "pre":
 				// functional clauses of an existing contract are not part of this sweep
+			case "inv-init", "inv-keep":
+				// a loop invariant tagged for other properties only is proved by their checks and merely
+				// assumed here; untagged invariants (the ones safety needs) are proved here as well
+				if o.clauseTagged && !hasProp(o.Props, pc.ID) {
+					continue
+				}
+				keep = append(keep, o)
 			default:
 				keep = append(keep, o)
 			}
